@@ -263,3 +263,92 @@ func checkSpecYAMLExact(c *Ctx, rule string) {
 	c.Check(bad == "" && exact, rule, "generate.marshalToYAMLFormat › intermediate JSON decoded exactly", c.posOf(pk, fd.Pos()), "yaml.Unmarshal of the JSON bytes",
 		"the intermediate JSON is decoded with `"+bad+"`: every number becomes a float64, so in the YAML rendering only an integer of a million or more is written with an exponent and an int64 above 2^53 is rounded — the bounds, defaults and enum values of the document are not the annotated ones")
 }
+
+// checkVariadicForward: a function that hands its own variadic parameter on to another variadic
+// function spreads it (`f(values...)`): passed as it is, the whole slice becomes one element.
+// The four WithEnum implementations of the scanner's typables are siblings; the one that did
+// not spread published `enum: [["red","blue"]]` for response headers.
+func checkVariadicForward(c *Ctx, rule string, pk *packages.Package) {
+	c.Rule(rule, "a variadic parameter handed on as the last argument of a variadic call is spread with `...`", 3)
+	info := pk.TypesInfo
+	n := 0
+	for _, fd := range load.AllFuncs(pk) {
+		if fd.Body == nil || fd.Type.Params == nil || len(fd.Type.Params.List) == 0 {
+			continue
+		}
+		last := fd.Type.Params.List[len(fd.Type.Params.List)-1]
+		if _, isVar := last.Type.(*ast.Ellipsis); !isVar || len(last.Names) == 0 {
+			continue
+		}
+		vp := info.Defs[last.Names[len(last.Names)-1]]
+		fd := fd
+		ast.Inspect(fd.Body, func(m ast.Node) bool {
+			call, ok := m.(*ast.CallExpr)
+			if !ok || len(call.Args) == 0 {
+				return true
+			}
+			id, ok := ast.Unparen(call.Args[len(call.Args)-1]).(*ast.Ident)
+			if !ok || info.Uses[id] != vp {
+				return true
+			}
+			sig, ok := info.TypeOf(call.Fun).(*types.Signature)
+			if !ok || !sig.Variadic() || sig.Params().Len() != len(call.Args) {
+				return true
+			}
+			n++
+			c.Check(call.Ellipsis.IsValid(), rule, fmt.Sprintf("codescan.%s › %s", load.FuncName(fd), goan.ExprString(call.Fun)), c.posOf(pk, call.Pos()), "spread with ...",
+				"`"+goan.ExprString(call)+"` passes the variadic parameter as one argument: the callee receives a list whose single element is the list (a response header of an enum type is published with enum: [[…]])")
+			return true
+		})
+	}
+	if n == 0 {
+		c.Anchor(rule, "codescan › variadic parameters handed on", "not found")
+	}
+}
+
+// checkSplitsFiltered: what a regular expression splits on may stand at either end of the text, or
+// twice in a row for a pattern without `+`: the pieces include empty strings. A list that goes
+// into the document (the tags of an operation) is not the raw result of Split.
+func checkSplitsFiltered(c *Ctx, rule string, pk *packages.Package) {
+	c.Rule(rule, "the result of (*regexp.Regexp).Split is never stored as it is into a field: its pieces are filtered for empty strings first", 1)
+	info := pk.TypesInfo
+	n := 0
+	for _, fd := range load.AllFuncs(pk) {
+		if fd.Body == nil {
+			continue
+		}
+		fd := fd
+		ast.Inspect(fd.Body, func(m ast.Node) bool {
+			call, ok := m.(*ast.CallExpr)
+			if !ok {
+				return true
+			}
+			fn := goan.Callee(info, call)
+			if fn == nil || fn.Name() != "Split" || load.RecvNameOf(fn) != "Regexp." {
+				return true
+			}
+			n++
+			stored := ""
+			ast.Inspect(fd.Body, func(k ast.Node) bool {
+				as, ok := k.(*ast.AssignStmt)
+				if !ok {
+					return true
+				}
+				for i, r := range as.Rhs {
+					if ast.Unparen(r) == ast.Expr(call) && i < len(as.Lhs) {
+						if se, ok := ast.Unparen(as.Lhs[i]).(*ast.SelectorExpr); ok {
+							stored = goan.ExprString(se)
+						}
+					}
+				}
+				return true
+			})
+			c.Check(stored == "", rule, fmt.Sprintf("codescan.%s › %s.Split #%d", load.FuncName(fd), goan.ExprString(call.Fun.(*ast.SelectorExpr).X), n), c.posOf(pk, call.Pos()), "pieces are looked at one by one",
+				"the pieces are stored as they are into "+stored+": a separator at the end of the text (a blank before the operation id of a swagger:route line) leaves an empty string in the list, which the document then carries (an empty tag)")
+			return true
+		})
+	}
+	if n == 0 {
+		c.Anchor(rule, "codescan › (*regexp.Regexp).Split", "not found")
+	}
+}
